@@ -782,5 +782,23 @@ m('metadata-of-missing-object-500','C02',GCS,
 	}
 	g.jsonRespond(w, obj)
 }''','R73/','a deleted object is reported as a server error by the metadata GET')
+# ---- C12 / R76: the predicate is evaluated on every successful path
+m('cam-predicate-skipped-for-empty-rows','C12',BT,
+  '''	whichMut := false
+	if req.PredicateFilter == nil {
+		// Use true_mutations iff row contains any cells.
+		whichMut = !isEmpty(r)
+	} else {''','''	whichMut := false
+	if req.PredicateFilter == nil || isEmpty(r) {
+		// Use true_mutations iff row contains any cells.
+		whichMut = !isEmpty(r)
+	} else {''','R76/','an invalid predicate is not rejected when the row has no cells')
+# ---- C08 / R75: the definition is persisted under the lock that serialises its changes
+m('modify-families-persist-after-unlock','C08',BT,
+  '''	s.storage.SetTableMeta(tbl.def)
+	// The response is marshalled after the table lock is released: return a copy.
+	return proto.Clone(tbl.def).(*btapb.Table), nil''','''	out := proto.Clone(tbl.def).(*btapb.Table)
+	go s.storage.SetTableMeta(proto.Clone(tbl.def).(*btapb.Table))
+	return out, nil''','R75/','the definition is written to disk asynchronously, in no particular order with respect to later modifications')
 json.dump(M, open('/verif/mutants.json','w'), indent=1)
 print(len(M),'mutants')
